@@ -303,6 +303,7 @@ def endProgStep (E : Env) (P : Pats) (st : TState) (prog : EndProg) : Except Err
 def endProgFinish (ts : List Tok5) (s : TState) (matched early : Bool) : Except Err (List Tok5 × TState) :=
   if early then .ok (ts, s)
   else if s.inBraces || s.endProgs.isEmpty then .ok (ts, s)
+  else if matched then .ok (ts, s)      -- a piece of the f-string was consumed: the scan loop comes back for the rest
   else if s.pos = 0 || s.inMultiLineString || s.inContinuedString then
     match s.endProgs with
     | [] => .ok (ts, s)
